@@ -119,6 +119,12 @@ pub struct Dir {
     /// per-message virtual latency in ms, drawn by the world's PRNG in [0, max]
     pub latency_max_ms: u64,
     last_ready: Option<Instant>,
+    /// the receiving endpoint's socket object is gone (its connection task returned): like a closed
+    /// TCP socket, further sends into this direction fail
+    pub receiver_gone: bool,
+    /// the sending endpoint's socket object is gone: after the buffered messages the receiver's
+    /// source reports end-of-stream
+    pub sender_gone: bool,
 }
 impl Dir {
     pub fn inflight_len(&self) -> usize {
@@ -143,6 +149,8 @@ pub struct Link {
     pub backpressure_hits: u64,
     /// the sink of endpoint x returned an error to the connection task at least once
     pub sink_err_seen: [bool; 2],
+    /// the source of endpoint x reported an error or end-of-stream to the connection task
+    pub src_ended_seen: [bool; 2],
 }
 // `Seq` is an Rc: the link is only ever touched from the simulator thread; the Mutex is there
 // because `WebSocket` demands `Send`.
@@ -151,8 +159,8 @@ pub type L = Arc<Mutex<Link>>;
 
 impl Link {
     pub fn new(cap: usize, latency_max_ms: u64, seq: Seq, lat_seed: u64) -> L {
-        let mk = || Dir { inflight: VecDeque::new(), delivered: VecDeque::new(), sink_closed: false, close_consumed: false, rx_waker: None, tx_waker: None, capacity: cap, sink_err: false, src: SrcMode::Normal, hold: false, latency_max_ms, last_ready: None };
-        Arc::new(Mutex::new(Link { d: [mk(), mk()], seq, evs: vec![], auto_pong: [true, true], drop_data_after_close_sent: false, t0: Instant::now(), lat_rng: simcore::Prng::new(lat_seed), n_delivered: 0, backpressure_hits: 0, sink_err_seen: [false; 2] }))
+        let mk = || Dir { inflight: VecDeque::new(), delivered: VecDeque::new(), sink_closed: false, close_consumed: false, rx_waker: None, tx_waker: None, capacity: cap, sink_err: false, src: SrcMode::Normal, hold: false, latency_max_ms, last_ready: None, receiver_gone: false, sender_gone: false };
+        Arc::new(Mutex::new(Link { d: [mk(), mk()], seq, evs: vec![], auto_pong: [true, true], drop_data_after_close_sent: false, t0: Instant::now(), lat_rng: simcore::Prng::new(lat_seed), n_delivered: 0, backpressure_hits: 0, sink_err_seen: [false; 2], src_ended_seen: [false; 2] }))
     }
     fn ev(&mut self, stage: Stage, from: usize, w: &Arc<Wire>, injected: bool) {
         let seq = self.seq.tick();
@@ -228,6 +236,17 @@ pub struct SimWs {
     pub link: L,
     pub me: usize,
 }
+impl Drop for SimWs {
+    /// The socket object goes away with the connection task (or the raw peer): the other side
+    /// sees what a closed TCP connection shows — end-of-stream after the buffered data, errors on send.
+    fn drop(&mut self) {
+        let mut l = self.link.lock().unwrap();
+        let me = self.me;
+        l.d[me].sender_gone = true;
+        l.d[1 - me].receiver_gone = true;
+        l.wake_all();
+    }
+}
 fn werr() -> penguin_mux::Error {
     penguin_mux::Error::WebSocket(Box::new(std::io::Error::from(std::io::ErrorKind::ConnectionReset)))
 }
@@ -235,7 +254,7 @@ impl SimWs {
     fn poll_space(&mut self, cx: &mut Context<'_>) -> Poll<Result<(), penguin_mux::Error>> {
         let mut l = self.link.lock().unwrap();
         let me = self.me;
-        if l.d[me].sink_err {
+        if l.d[me].sink_err || l.d[me].receiver_gone {
             l.sink_err_seen[me] = true;
             return Poll::Ready(Err(werr()));
         }
@@ -254,7 +273,7 @@ impl WebSocket for SimWs {
     fn start_send_unpin(&mut self, item: Message) -> Result<(), penguin_mux::Error> {
         let mut l = self.link.lock().unwrap();
         let me = self.me;
-        if l.d[me].sink_err {
+        if l.d[me].sink_err || l.d[me].receiver_gone {
             l.sink_err_seen[me] = true;
             return Err(werr());
         }
@@ -297,9 +316,13 @@ impl WebSocket for SimWs {
             match l.d[from].src {
                 SrcMode::Err => {
                     l.d[from].src = SrcMode::Eof;
+                    l.src_ended_seen[me] = true;
                     return Poll::Ready(Some(Err(werr())));
                 }
-                SrcMode::Eof => return Poll::Ready(None),
+                SrcMode::Eof => {
+                    l.src_ended_seen[me] = true;
+                    return Poll::Ready(None);
+                }
                 SrcMode::Silent => {
                     l.d[from].rx_waker = Some(cx.waker().clone());
                     return Poll::Pending;
@@ -340,6 +363,10 @@ impl WebSocket for SimWs {
                 return Poll::Ready(Some(Ok(msg.m)));
             }
             if l.d[from].close_consumed {
+                return Poll::Ready(None);
+            }
+            if l.d[from].sender_gone && l.d[from].inflight.is_empty() {
+                l.src_ended_seen[me] = true;
                 return Poll::Ready(None);
             }
             l.d[from].rx_waker = Some(cx.waker().clone());
